@@ -113,6 +113,44 @@ def classes(ctx, dev, dev3, other):
     seed = tdgl.solve(other, runs.options(solve_time=0.02, save_every=10))
     yield "seed-other-device", "gross", solve(seed_solution=seed), (ValueError,)
 
+    # ... and from devices that differ from the simulated one in ONE respect only (same name, layer and film):
+    # one more / one fewer hole or terminal (sorting last or first by name), a moved hole, another London length
+    from tdgl.geometry import circle
+
+    def variant(holes=(), extra_terminals=(), lam=None):
+        L = dev.layer.copy()
+        if lam is not None:
+            L.london_lambda = lam
+        d = tdgl.Device(dev.name, layer=L, film=dev.film.copy(), holes=list(holes), terminals=[t.copy() for t in dev.terminals] + list(extra_terminals),
+                        probe_points=dev.probe_points, length_units=dev.length_units)
+        for mel in (1.4, 1.2, 1.0, 0.8):
+            try:
+                d.make_mesh(max_edge_length=mel)
+                return d
+            except ValueError:
+                continue
+        raise V.Infra("could not mesh a seed-device variant")
+
+    hole_z = P("zhole", points=circle(0.5, points=17, center=(0.4, 0.1)))
+    hole_a = P("ahole", points=circle(0.4, points=13, center=(-1.2, -0.3)))
+    hole_z_moved = P("zhole", points=circle(0.5, points=17, center=(0.6, 0.1)))
+    top = P("top", points=box(2.0, 0.1, center=(0, 1.5)))
+    atap = P("atap", points=box(1.5, 0.1, center=(0.3, -1.5)))
+    base = variant()
+    pairs = [
+        ("plain->one-hole", base, variant(holes=[hole_z])),
+        ("one-hole->plain", variant(holes=[hole_z]), base),
+        ("one-hole->two-holes", variant(holes=[hole_a]), variant(holes=[hole_a, hole_z])),
+        ("hole-moved", variant(holes=[hole_z]), variant(holes=[hole_z_moved])),
+        ("two-terminals->three(last)", base, variant(extra_terminals=[top])),
+        ("three(last)->two-terminals", variant(extra_terminals=[top]), base),
+        ("two-terminals->three(first)", base, variant(extra_terminals=[atap])),
+        ("other-london-length", variant(lam=dev.layer.london_lambda * 1.5), base),
+    ]
+    for nm, dseed, dsim in pairs:
+        sd = tdgl.solve(dseed, runs.options(solve_time=0.02, save_every=10))
+        yield f"seed-device-differs:{nm}", "gross", solve(_dev=dsim, seed_solution=sd), (ValueError,)
+
     def wrong_shape(x, y, z):
         return np.zeros((len(x) + 1, 3))
     yield "vector-potential-shape", "gross", solve(applied_vector_potential=wrong_shape), (ValueError,)
